@@ -303,7 +303,27 @@ func certChainGates(c *an.Check) *ssa.Function {
 		an.FactReq("len(chain)==1", func(s *an.State, x, y ssa.Value, r an.Rel) bool {
 			return r == an.EQ && an.IsIntConst(y, 1) && an.LenOf(s, x, func(a ssa.Value) bool { return an.IsParam(a, 0) })
 		}),
-		an.CallTrue("key extension found", 0, an.R("crypto/tls", "", "extensionIDEqual")),
+		an.AnyOf("key extension found",
+			an.CallTrue("extensionIDEqual(ext.Id, extensionID)", 0, an.R("crypto/tls", "", "extensionIDEqual")),
+			an.Req{Name: "ext.Id.Equal(extensionID)", Holds: func(s *an.State, at ssa.Instruction) bool {
+				// the standard-library spelling of the same comparison, against the package's extension id
+				isExtID := func(v ssa.Value) bool {
+					u, ok := s.Canon(v).(*ssa.UnOp)
+					if !ok {
+						return false
+					}
+					g, ok := u.X.(*ssa.Global)
+					return ok && g.Name() == "extensionID"
+				}
+				for _, f := range an.WithClosures(pk) {
+					for _, call := range an.Calls(f, an.X("encoding/asn1", "ObjectIdentifier", "Equal")) {
+						if len(call.Call.Args) == 2 && (isExtID(call.Call.Args[0]) || isExtID(call.Call.Args[1])) && s.IsTrue(call) {
+							return true
+						}
+					}
+				}
+				return false
+			}}),
 		an.CallOK("x509 Verify ok (validity, critical extensions, usage — NOT the signature: the certificate is its own root)", an.X("crypto/x509", "Certificate", "Verify")),
 		an.CallOK("self-signature verifies (CheckSignature with the certificate's own key)", an.X("crypto/x509", "Certificate", "CheckSignature")),
 		an.CallOK("asn1.Unmarshal ok", an.X("encoding/asn1", "", "Unmarshal")),
